@@ -6,6 +6,7 @@ package main
 
 import (
 	"context"
+	"time"
 	"encoding/json"
 	"unicode/utf8"
 	"crypto/md5"
@@ -116,20 +117,57 @@ func isFormatErr(err error) bool {
 	return err != nil && strings.Contains(err.Error(), "invalid config format")
 }
 
-// guarded calls: a panic inside the library is an observation, not a harness crash
+// guarded calls: a panic inside the library is an observation, not a harness crash,
+// and neither is a wedge (a lock that is never released, a blocked channel): every
+// library call runs under a watchdog and a call that does not return within
+// opTimeout becomes an oracle failure "hang" with the history as replay.
+const opTimeout = 10 * time.Second
+
+// wedged counts calls that did not return; after a few of them the run stops generating
+// (each further case would wait for the watchdog again) and reports what it has.
+var wedged int
+
+type hung struct{}
+
+func (hung) String() string { return "the call did not return within 10s (wedged: lock never released?)" }
+
+// guard runs f; pan is the recovered panic value, or hung{} when f did not return.
+func guard(f func()) (pan any) {
+	done := make(chan any, 1)
+	go func() {
+		defer func() { done <- recover() }()
+		f()
+	}()
+	select {
+	case p := <-done:
+		return p
+	case <-time.After(opTimeout):
+		wedged++
+		return hung{}
+	}
+}
+
+// sigOf names the oracle signature of a guarded call that did not end normally.
+func sigOf(pan any) string {
+	if _, ok := pan.(hung); ok {
+		return "hang"
+	}
+	return "panic"
+}
+
 func safeGet(fs *credentials.FileStore, a string) (c auth.Credential, err error, pan any) {
-	defer func() { pan = recover() }()
-	c, err = fs.Get(context.Background(), a)
+	pan = guard(func() { c, err = fs.Get(context.Background(), a) })
+	if pan != nil {
+		c, err = auth.EmptyCredential, nil
+	}
 	return
 }
 func safePut(fs *credentials.FileStore, a string, c auth.Credential) (err error, pan any) {
-	defer func() { pan = recover() }()
-	err = fs.Put(context.Background(), a, c)
+	pan = guard(func() { err = fs.Put(context.Background(), a, c) })
 	return
 }
 func safeDelete(fs *credentials.FileStore, a string) (err error, pan any) {
-	defer func() { pan = recover() }()
-	err = fs.Delete(context.Background(), a)
+	pan = guard(func() { err = fs.Delete(context.Background(), a) })
 	return
 }
 
@@ -190,7 +228,28 @@ func toHostnameOracle(addr string) string {
 }
 
 // runHistory executes one history against the real FileStore.
+// runHistory runs one history; a call that did not return within the watchdog limit is
+// re-confirmed on a fresh run of the same history before it is reported (a loaded host).
 func runHistory(hc histCase) {
+	if wedged >= 3 {
+		return
+	}
+	confirmHang = false
+	before := wedged
+	runHistory1(hc)
+	if wedged > before && !confirmHang {
+		// first sighting: not reported yet (see failHang); run again, now reporting
+		wedged = before
+		confirmHang = true
+		runHistory1(hc)
+		confirmHang = false
+	}
+}
+
+// confirmHang: the current run is the confirmation run of a history that wedged once
+var confirmHang bool
+
+func runHistory1(hc histCase) {
 	id := run.NewID()
 	base, err := os.MkdirTemp("", "c18h")
 	if err != nil {
@@ -241,6 +300,10 @@ func runHistory(hc histCase) {
 			run.Evaluations++
 			if err != nil {
 				run.Count("init:unparseable-refused")
+				if *hc.Init != "" {
+					run.Case(run.NewID(), "HB "+common.Hex(*hc.Init)+" 0 MODE 600", "LOADERR")
+					run.Evaluations--
+				}
 				return
 			}
 			run.Count("init:unparseable-but-loaded")
@@ -254,6 +317,16 @@ func runHistory(hc histCase) {
 			}
 			if _, _, bad := readDoc(path); bad {
 				run.OracleFail(id, "file-unparseable", "after a save the leniently loaded config is still not one JSON document", hc)
+			}
+			// the model reads these bytes the way encoding/json does (last duplicate wins, what follows
+			// the first value is ignored): results and the exact bytes written
+			if raw, err := os.ReadFile(path); err == nil && *hc.Init != "" {
+				sum := md5hex(string(raw))
+				run.Case(run.NewID(), fmt.Sprintf("HB %s 2 P %s %s %s %s - G %s %s MODE %o", common.Hex(*hc.Init), common.Hex("lenient.example"),
+					common.Hex(want.Username), common.Hex(want.Password), common.Hex(want.RefreshToken), common.Hex("lenient.example"), credStr(want), hc.Mode),
+					fmt.Sprintf("RES ok %s MODE 600 BYTES %s %s REOPEN same", credStr(want), sum, sum))
+				run.Count("file-bytes:lenient-read-by-model")
+				run.Evaluations--
 			}
 			if fs2, err := credentials.NewFileStore(path); err != nil {
 				run.OracleFail(id, "reload", "the saved file does not load: "+err.Error(), hc)
@@ -271,7 +344,12 @@ func runHistory(hc histCase) {
 	} else if initDoc != nil && initDoc.k != jObj {
 		run.Count("init:not-an-object")
 	}
-	fail := func(sig, msg string) { run.OracleFail(id, sig, msg, hc) }
+	fail := func(sig, msg string) {
+		if sig == "hang" && !confirmHang {
+			return // reported only when it happens again on a fresh run
+		}
+		run.OracleFail(id, sig, msg, hc)
+	}
 
 	fs, err := credentials.NewFileStore(path)
 	if err == nil && hc.DisablePut {
@@ -289,6 +367,10 @@ func runHistory(hc histCase) {
 		}
 		if judged {
 			run.Case(id, "H "+initTok+" 0", "LOADERR")
+		}
+		if hc.Init != nil && *hc.Init != "" {
+			run.Case(run.NewID(), "HB "+common.Hex(*hc.Init)+" 0 MODE 600", "LOADERR")
+			run.Evaluations--
 		}
 		return
 	}
@@ -338,7 +420,7 @@ func runHistory(hc histCase) {
 			run.Count("ref:memory-store")
 		}
 	}
-	var results, digests []string
+	var results, digests, byteSums []string
 	var modelOps []string
 	finalCanon := canonDoc(initDoc)
 	nontrivial := false
@@ -348,7 +430,7 @@ func runHistory(hc histCase) {
 		case "G":
 			c, err, pan := safeGet(fs, o.Addr)
 			if pan != nil {
-				fail("panic", fmt.Sprintf("Get(%q) panicked: %v", o.Addr, pan))
+				fail(sigOf(pan), fmt.Sprintf("Get(%q) panicked or hung: %v", o.Addr, pan))
 				run.Evaluations++
 				return
 			} else if err != nil {
@@ -385,7 +467,7 @@ func runHistory(hc histCase) {
 			err, pan := safePut(fs, o.Addr, o.cred())
 			res = resultStr(nil, err)
 			if pan != nil {
-				fail("panic", fmt.Sprintf("Put(%q) panicked: %v", o.Addr, pan))
+				fail(sigOf(pan), fmt.Sprintf("Put(%q) panicked or hung: %v", o.Addr, pan))
 				run.Evaluations++
 				return
 			}
@@ -434,12 +516,9 @@ func runHistory(hc histCase) {
 		case "C": // Config.SetCredentialsStore(o.Addr)
 			var err error
 			var pan any
-			func() {
-				defer func() { pan = recover() }()
-				err = credentials.VerifSetCredentialsStore(fs, o.Addr)
-			}()
+			pan = guard(func() { err = credentials.VerifSetCredentialsStore(fs, o.Addr) })
 			if pan != nil {
-				fail("panic", fmt.Sprintf("SetCredentialsStore(%q) panicked: %v", o.Addr, pan))
+				fail(sigOf(pan), fmt.Sprintf("SetCredentialsStore(%q) panicked or hung: %v", o.Addr, pan))
 				run.Evaluations++
 				return
 			}
@@ -462,7 +541,7 @@ func runHistory(hc histCase) {
 			err, pan := safeDelete(fs, o.Addr)
 			res = resultStr(nil, err)
 			if pan != nil {
-				fail("panic", fmt.Sprintf("Delete(%q) panicked: %v", o.Addr, pan))
+				fail(sigOf(pan), fmt.Sprintf("Delete(%q) panicked or hung: %v", o.Addr, pan))
 				run.Evaluations++
 				return
 			}
@@ -494,6 +573,27 @@ func runHistory(hc histCase) {
 		}
 		finalCanon = canonDoc(doc)
 		digests = append(digests, md5hex(finalCanon))
+		// the exact bytes of the file (model: Model/JsonDoc.v render_file)
+		if raw, err := os.ReadFile(path); err != nil {
+			byteSums = append(byteSums, "absent")
+		} else if hc.Init != nil && string(raw) == *hc.Init {
+			byteSums = append(byteSums, "orig")
+		} else {
+			byteSums = append(byteSums, md5hex(string(raw)))
+		}
+		// the exact bytes Put wrote for its entry (json.Marshal(AuthConfig), re-indented by
+		// MarshalIndent): compared with the model's entry_bytes
+		if o.Op == "P" && lastPut[o.Addr] != nil && *lastPut[o.Addr] == o && doc != nil && doc.k == jObj {
+			if a := doc.get("auths"); a != nil && a.k == jObj {
+				if e := a.get(o.Addr); e != nil && e.k == jObj {
+					bid := run.NewID()
+					run.Case(bid, fmt.Sprintf("FB %s %s %s %s", common.Hex(o.U), common.Hex(o.P), common.Hex(o.R), common.Hex(o.A)),
+						"BYTES "+common.Hex(stripSpace(e.src)))
+					run.Count("put:entry-bytes-compared")
+					run.Evaluations--
+				}
+			}
+		}
 		if doc == nil {
 			if saved {
 				fail("file-missing", "config file missing after a save")
@@ -623,11 +723,58 @@ func runHistory(hc histCase) {
 		if hc.DisablePut {
 			line += " DP 1"
 		}
-		obs := fmt.Sprintf("RES %s FILES %s FINAL %s MODE %s", strings.Join(results, " "), strings.Join(digests, " "), finalCanon, finalMode)
+		// source texts of the values the library does not interpret (what json.RawMessage holds)
+		var srcT, srcE []string
+		if initDoc != nil && initDoc.k == jObj {
+			for _, kv := range initDoc.obj {
+				srcT = append(srcT, common.Hex(goString(kv.key))+" "+common.Hex(kv.val.src))
+				if kv.key == "auths" && kv.val.k == jObj {
+					for _, e := range kv.val.obj {
+						srcE = append(srcE, common.Hex(goString(e.key))+" "+common.Hex(e.val.src))
+					}
+				}
+			}
+		}
+		line += fmt.Sprintf(" SRC %d %s %d %s", len(srcT), strings.Join(srcT, " "), len(srcE), strings.Join(srcE, " "))
+		line = strings.Join(strings.Fields(line), " ")
+		obs := fmt.Sprintf("RES %s FILES %s FINAL %s MODE %s BYTES %s", strings.Join(results, " "), strings.Join(digests, " "), finalCanon, finalMode, strings.Join(byteSums, " "))
 		run.Case(id, line, obs)
+		run.Count("file-bytes:histories-compared")
 	} else {
 		run.Count("unjudged:case-variant-field")
 		run.Evaluations++
+	}
+	// the same history judged by the model that READS THE BYTES of the file itself
+	// (Model/JsonRead.v): no harness-side classification of the document
+	{
+		initMode, finalMode := "-", "-"
+		initHex := "ABSENT"
+		if hc.Init != nil {
+			m := hc.Mode
+			if m == 0 {
+				m = 0o644
+			}
+			initMode = fmt.Sprintf("%o", m)
+			initHex = common.Hex(*hc.Init)
+			if *hc.Init == "" {
+				initHex = "EMPTY"
+			}
+		}
+		if st, err := os.Stat(path); err == nil {
+			finalMode = fmt.Sprintf("%o", st.Mode().Perm())
+		}
+		line := fmt.Sprintf("HB %s %d %s MODE %s", initHex, len(modelOps), strings.Join(modelOps, " "), initMode)
+		if hc.DisablePut {
+			line += " DP 1"
+		}
+		line = strings.Join(strings.Fields(line), " ")
+		reopen := "n/a"
+		if saved {
+			reopen = "same" // the implementation's own reload was checked by the oracle above (reload, reload-roundtrip)
+		}
+		run.Case(run.NewID(), line, fmt.Sprintf("RES %s MODE %s BYTES %s REOPEN %s", strings.Join(results, " "), finalMode, strings.Join(byteSums, " "), reopen))
+		run.Count("file-bytes:read-by-model")
+		run.Evaluations--
 	}
 	if nontrivial {
 		js := fmt.Sprintf("%v|%v", hc.Init != nil, hc.Ops)
